@@ -78,6 +78,15 @@ Fixpoint spec_diff_positions (i : Z) (a b : list Z) : list Z :=
   end.
 Definition spec_count (a b : list Z) : Z := Z.of_nat (length (spec_diff_positions 0 a b)).
 
+(** value range of each integer number type (the domain of the element-wise claims) *)
+Definition nt_ranges : list (Z * (Z * Z)) :=
+  [(20, (-128, 127)); (21, (0, 255)); (3, (0, 255)); (4, (-128, 127));
+   (22, (-32768, 32767)); (23, (0, 65535)); (24, (-2147483648, 2147483647)); (25, (0, 4294967295))].
+Fixpoint nt_range_in (l : list (Z * (Z * Z))) (nt : Z) : option (Z * Z) :=
+  match l with [] => None | (k, r) :: t => if nt =? k then Some r else nt_range_in t nt end.
+Definition nt_range (nt : Z) : option (Z * Z) := nt_range_in nt_ranges nt.
+Definition in_range (lo hi v : Z) : Prop := lo <= v <= hi.
+
 (** * Row-major order.  [dims] slowest first. *)
 Fixpoint zprod (l : list Z) : Z := match l with [] => 1 | d :: r => d * zprod r end.
 
